@@ -272,7 +272,16 @@ pub fn gen_doc(r: &mut Rng, cfg: &GenCfg) -> Vec<u8> {
 /// one random mutation: the malformed stream
 pub fn mutate(r: &mut Rng, doc: &[u8]) -> Vec<u8> {
     let mut d = doc.to_vec();
-    match r.below(9) {
+    match r.below(11) {
+        9 | 10 if d.contains(&b'\\') => {
+            // a raw control character (or quote) shortly before an existing backslash: the block
+            // scanners must report whichever special byte comes first
+            let bs: Vec<usize> = d.iter().enumerate().filter(|(_, b)| **b == b'\\').map(|(i, _)| i).collect();
+            let p = bs[r.below(bs.len())];
+            let k = 1 + r.below(31);
+            let at = p.saturating_sub(k);
+            d.insert(at, *r.pick(b"\x00\x01\x1f\n\t"));
+        }
         0 if !d.is_empty() => {
             let n = r.below(d.len());
             d.truncate(n);
